@@ -1,5 +1,6 @@
 import Rare.Proofs.C14Log
 import Rare.Proofs.C14Legend
+import Rare.Proofs.C14LegendF64
 import Rare.Proofs.C14Reduce
 import Rare.Gen.C14
 /-!
@@ -1082,6 +1083,36 @@ theorem legend_linear_f64_boundary :
     (scaleKeys (f64Arith id id id id) .linear 6 0 9223372036854775295).getLast? = some 9223372036854773760 ∧
     (scaleKeys (f64Arith id id id id) .linear 6 0 9223372036854775296).getLast? = some (-9223372036854775808) ∧
     (scaleKeys (f64Arith id id id id) .linear 6 0 9223372036854775807).getLast? = some (-9223372036854775808) := by
+  decide +kernel
+
+/-- THE LINEAR LEGEND ON THE REAL FLOAT COMPUTATION (`legend_linear_exact` carried over to IEEE-754 binary64, the operations Go
+performs): for every range `min < max` with both ends floats (`|·| ≤ 2^53`) and `(max - min) * 5 ≤ 2^53` – every range within
+`±2^49` is one, and so is `[2^53 - 10, 2^53]` – the keys of `ScaleKeys(6, min, max)` are STRICTLY INCREASING, the first is `min`,
+the last is `max` and every key lies in `[min, max]`.  In this class `float64(min/max)`, `Floor/Ceil`, the span and the
+products `span * float64(i)` are exact; the quotient by `float64(5)` and the sum with `minf` round once each, rounding is
+monotone and fixes the floats `min` and `max` (`Proofs/C14LegendF64.lean`).  The logarithm / power parameters are arbitrary:
+the linear scaler never calls them. -/
+theorem legend_linear_f64 (L2 L10 P2 P10 : F64 → F64) (mn mx : Int) (hlt : mn < mx)
+    (hmn : -9007199254740992 ≤ mn) (hmx : mx ≤ 9007199254740992) (hspan : (mx - mn) * 5 ≤ 9007199254740992) :
+    (scaleKeys (f64Arith L2 L10 P2 P10) .linear 6 mn mx).Pairwise (· < ·) ∧
+    (scaleKeys (f64Arith L2 L10 P2 P10) .linear 6 mn mx).head? = some mn ∧
+    (scaleKeys (f64Arith L2 L10 P2 P10) .linear 6 mn mx).getLast? = some mx ∧
+    (∀ k ∈ scaleKeys (f64Arith L2 L10 P2 P10) .linear 6 mn mx, mn ≤ k ∧ k ≤ mx) :=
+  scaleKeys_linear_f64 L2 L10 P2 P10 mn mx hlt ⟨hmn, hmx, hspan⟩
+
+/-- the class of `legend_linear_f64` is SHARP in the span (kernel-checked on the very definitions of the theorem): the widest
+span inside it, `⌊2^53 / 5⌋ = 1801439850948198`, still ends in `max`; three more and `span * 5` is no float any longer – the
+product rounds, the quotient by 5 rounds again and the last legend entry reads `max - 1` (a documented quirk of the LEGEND of
+very wide ranges, as in `legend_linear_f64_boundary`; the cells and numbers of the rows do not depend on it).  The ends may be
+as large as `2^53` when the span is small. -/
+theorem legend_linear_f64_span_boundary :
+    scaleKeys (f64Arith id id id id) .linear 6 0 1801439850948198 =
+      [0, 360287970189639, 720575940379279, 1080863910568918, 1441151880758558, 1801439850948198] ∧
+    (scaleKeys (f64Arith id id id id) .linear 6 0 1801439850948201).getLast? = some 1801439850948200 ∧
+    scaleKeys (f64Arith id id id id) .linear 6 9007199254740982 9007199254740992 =
+      [9007199254740982, 9007199254740984, 9007199254740986, 9007199254740988, 9007199254740990, 9007199254740992] ∧
+    scaleKeys (f64Arith id id id id) .linear 6 (-9007199254740992) (-9007199254740985) =
+      [-9007199254740992, -9007199254740991, -9007199254740989, -9007199254740988, -9007199254740986, -9007199254740985] := by
   decide +kernel
 
 /-- the cell values of every reachable aggregated state are int64: `Cells.sample` (the aggregators' `+=`) wraps -/
